@@ -245,3 +245,25 @@ M("C19", "alias-of-bus-mapping-mutated", SYM, "            bus = BUS_MAPPING[sel
 M("C19", "lru-cache-on-eval-number", EXPRF, "def eval_number(number: str) -> int:", "@functools.lru_cache(maxsize=None)\ndef eval_number(number: str) -> int:", "C19.R2",
   edits=[(EXPRF, "def eval_number(number: str) -> int:", "@functools.lru_cache(maxsize=None)\ndef eval_number(number: str) -> int:"), (EXPRF, "import ctypes\n", "import ctypes\nimport functools\n")])
 M("C19", "local-dict-neutral", CG, "    macro_definitions: MacroDefinitions = {}\n    return _code_gen", "    macro_definitions: MacroDefinitions = {}\n    macro_definitions.clear()\n    return _code_gen", neutral=True)
+
+# ------------------------------------------------------------------ C15
+SCN = "a816/parse/scanner.py"
+M("C15", "revert-comment-eof", SST, "        while not s.accept_prefix(\"*/\"):\n            if s.next() is None:\n                raise ScannerException(\"Unterminated Comment\", position)\n", "        while not s.accept_prefix(\"*/\"):\n            s.next()\n", "C15.R2")
+M("C15", "revert-scan-progress-guard", SCN, "                    if self.pos == previous_pos:\n                        self.start = self.pos\n                        raise ScannerException(f\"Invalid Input {self.input[self.pos:]}\", self.get_position())\n", "", "C15.R1")
+M("C15", "negated-run-without-sentinel", SST, '            s.accept_run("\\n\\0", negate=True)\n\n        if s.peek() == "\\n"', '            s.accept_run("\\n", negate=True)\n\n        if s.peek() == "\\n"', "C15.R3")
+M("C15", "quoted-string-no-none-test", SST, '        if c == "\\n" or c is None:\n            raise ScannerException("Unterminated String", position)', '        if c == "\\n":\n            raise ScannerException("Unterminated String", position)', "C15.R2")
+M("C15", "line-comment-no-none", SST, 'while s.next() not in ["\\n", None]:', 'while s.next() != "\\n":', "C15.R2")
+M("C15", "parse-block-skips-without-next", PST, "        if p.current().type == TokenType.RBRACE:\n            break\n        statement = parse_decl(p)\n        if statement is not None:\n            decl.append(statement)\n\n    expect_token(p.next(), TokenType.RBRACE)",
+  "        if p.current().type == TokenType.RBRACE:\n            break\n        if p.current().type == TokenType.COMMENT:\n            continue\n        statement = parse_decl(p)\n        if statement is not None:\n            decl.append(statement)\n\n    expect_token(p.next(), TokenType.RBRACE)", "C15.R1")
+M("C15", "struct-comment-no-next", PST, "        if p.current().type == TokenType.COMMENT:\n            p.next()\n            continue", "        if p.current().type == TokenType.COMMENT:\n            continue", "C15.R1")
+M("C15", "lex-initial-final-arm-silent", SST, "        if s.next() is not None:\n            raise ScannerException(f\"Invalid Input {s.input[s.start:]}\", s.get_position())", "        if s.peek() == EOF:\n            s.next()", "C15.R1",
+  edits=[(SST, "        if s.next() is not None:\n            raise ScannerException(f\"Invalid Input {s.input[s.start:]}\", s.get_position())", "        if s.peek() == EOF:\n            s.next()"),
+         (SCN, "                    if self.pos == previous_pos:\n                        self.start = self.pos\n                        raise ScannerException(f\"Invalid Input {self.input[self.pos:]}\", self.get_position())\n", "")])
+M("C15", "macro-args-accept-eof", PST, "            expect_tokens(token, [TokenType.COMMA, TokenType.RPAREN, TokenType.IDENTIFIER])\n\n            if accept_token(token, TokenType.RPAREN):", "            expect_tokens(token, [TokenType.COMMA, TokenType.RPAREN, TokenType.IDENTIFIER, TokenType.EOF])\n\n            if accept_token(token, TokenType.RPAREN):", "C15.R2",
+  edits=[(PST, "            expect_tokens(token, [TokenType.COMMA, TokenType.RPAREN, TokenType.IDENTIFIER])\n\n            if accept_token(token, TokenType.RPAREN):", "            expect_tokens(token, [TokenType.COMMA, TokenType.RPAREN, TokenType.IDENTIFIER, TokenType.EOF])\n\n            if accept_token(token, TokenType.RPAREN):"),
+         (PST, "            else:\n                expect_token(token, TokenType.IDENTIFIER)\n                args.append(token.value)", "            elif accept_token(token, TokenType.IDENTIFIER):\n                args.append(token.value)")])
+M("C15", "table-unknown-char-no-advance", "script/__init__.py", "            else:\n                current_position += 1\n\n        return bytes(binary_text)", "            else:\n                current_position += 0\n\n        return bytes(binary_text)", "C15.R1")
+M("C15", "ips-slice-can-be-zero", WR, "slice_size = min(0xFFFF, len(block) - k)", "slice_size = min(0xFFFF, len(block) - k - 1)", "C15.R1")
+M("C15", "shunting-yard-peek-instead-of-pop", EXPRF, "            while len(operator_stack) > lparen_index + 1:\n                op = operator_stack.pop()", "            while len(operator_stack) > lparen_index + 1:\n                op = operator_stack[-1]", "C15.R1")
+M("C15", "scope-reparented", SYM, "        if self.current_scope.parent is not None:\n            self.current_scope = self.current_scope.parent", "        if self.current_scope.parent is not None:\n            self.current_scope.parent.parent = self.current_scope.parent.parent\n            self.current_scope = self.current_scope.parent", "C15.R4")
+M("C15", "expr-list-comma-loop", PST, "        if accept_tokens(p.current(), [TokenType.COMMA]):\n            p.next()\n        else:\n            break\n\n    return expressions", "        if accept_tokens(p.current(), [TokenType.COMMA, TokenType.EOF]):\n            p.next()\n        else:\n            break\n\n    return expressions", "C15.R", neutral=True)
